@@ -190,6 +190,39 @@ func runC08TM(c *core.Ctx) {
 		}
 		processed[uint64(B.Height)] = big.NewInt(A.TimeAt(res.Height).UnixNano())
 	}
+	// back-fill: headers for heights below the latest one, trusted on an older stored state,
+	// submitted later (their roots are new information: the delay counts from now)
+	{
+		var ks []uint64
+		for h := range processed {
+			ks = append(ks, h)
+		}
+		sort.Slice(ks, func(i, j int) bool { return ks[i] < ks[j] })
+		fills := ch.Int(4)
+		for f := 0; f < fills && len(ks) >= 2; f++ {
+			c.Step("c08-backfill")
+			i := ch.Int(len(ks) - 1)
+			lo, hi := ks[i], ks[i+1]
+			if hi-lo < 2 {
+				continue
+			}
+			h := lo + 1 + uint64(ch.Int(int(hi-lo-1)))
+			if _, ok := processed[h]; ok {
+				continue
+			}
+			w.Tick(time.Duration(1+ch.Int(7200)) * time.Second)
+			hdr, err := B.UpdateHeader(int64(h), clienttypes.NewHeight(world.Revision(B.Name), lo))
+			c.Check(err)
+			msg, err := clienttypes.NewMsgUpdateClient(B.Name, hdr, w.Relayers[0].Addr)
+			c.Check(err)
+			res, err := w.One(A, &world.TxReq{Signer: w.Relayers[0], Msgs: []sdk.Msg{msg}, Label: fmt.Sprintf("backfill(%s #%d trusting %d)", B.Name, h, lo)})
+			c.Check(err)
+			if res.OK() {
+				processed[h] = big.NewInt(A.TimeAt(res.Height).UnixNano())
+				w.Stats.Inc("probe-backfilled-consensus-state")
+			}
+		}
+	}
 	latest, _ := w.ClientLatest(A, B.Name)
 	known := func(h uint64) bool { _, ok := processed[h]; return ok }
 	delay := new(big.Int).SetUint64(p.TimeDelay)
